@@ -49,6 +49,8 @@ def collect():
         with open(meta) as fhnd:
             info = json.load(fhnd)
         sid = os.path.basename(os.path.dirname(meta))
+        if info.get("status") == "obsolete":
+            continue
         items.append((sid, info["property"],
                       os.path.join(os.path.dirname(meta), "patch.diff")))
     return items
